@@ -13,6 +13,9 @@
 //	register(p)     Registry.Register(new node)                      p joins as a healthy member with its real role
 //	seen-as(p,X)    Registry.Register(new node with role X)          only the RECORDED role changes (stale view of p)
 //	rejoin-as(p,X)  Registry.Register(new node with role X)          p restarted with role X: real and recorded role change, p gets a fresh router
+//	crash(p)        (no registry change at all)                      p, recorded healthy, starts refusing connections: crashed or restarting
+//	                                                                 between two health-check rounds ("crashed-undetected"); the next request
+//	                                                                 that selects p runs the router's retry loop
 //
 // After EVERY request the clauses of judge() are applied with the cluster state as it is at that moment.
 package main
@@ -39,10 +42,11 @@ const (
 	tRegister
 	tSeenAs
 	tRejoinAs
+	tCrash
 	nTransOps
 )
 
-var transName = [nTransOps]string{"unhealthy", "failed", "healthy", "promote", "demote", "unregister", "register", "seen-as", "rejoin-as"}
+var transName = [nTransOps]string{"unhealthy", "failed", "healthy", "promote", "demote", "unregister", "register", "seen-as", "rejoin-as", "crash"}
 
 // step is one element of a history: a request (Req) or a transition on peer Peer (index into Nodes, >= 1).
 type step struct {
@@ -127,6 +131,11 @@ func applyModel(nodes []nodeCfg, s step) bool {
 			return false
 		}
 		p.Real, p.Rec, p.WS, p.Health = s.Role, s.Role, '-', 'h'
+	case tCrash:
+		if p.Gone || p.Health != 'h' {
+			return false
+		}
+		p.Health = 'x'
 	default:
 		return false
 	}
@@ -210,6 +219,8 @@ func (ch *chassis) applyReal(lc *liveCluster, before, after []nodeCfg, s step) {
 		register()
 		ch.wireNode(lc, after, j)
 		ch.setDown(j, false)
+	case tCrash:
+		ch.setDown(j, true)
 	}
 }
 
@@ -331,7 +342,7 @@ func histPeerSet(healths []byte, withGone bool) []nodeCfg {
 	return out
 }
 
-var allOps = []int{tUnhealthy, tFailed, tHealthy, tPromote, tDemote, tUnregister, tRegister, tSeenAs, tRejoinAs}
+var allOps = []int{tUnhealthy, tFailed, tHealthy, tPromote, tDemote, tUnregister, tRegister, tSeenAs, tRejoinAs, tCrash}
 
 func histSpaces(quick bool) []*histSpace {
 	var recv []nodeCfg
@@ -341,7 +352,7 @@ func histSpaces(quick bool) []*histSpace {
 	full := histPeerSet([]byte{'h', 'u', 'f'}, true)
 	const recvD = "receiving node {standalone, writer, reader, compactor} (router wired, recorded correctly)"
 	const peerD = "initial peer {4 roles recorded correctly (writer: primary/standby/none) x healthy/unhealthy/failed, or running but not registered (4 roles)}"
-	const transD = "one transition between consecutive requests out of {unhealthy, failed, healthy, promote (current primary becomes standby), demote, unregister, register, seen-as X (recorded role only), rejoin-as X (real+recorded role, fresh router on that peer)} applied to any peer where it changes something"
+	const transD = "one transition between consecutive requests out of {unhealthy, failed, healthy, promote (current primary becomes standby), demote, unregister, register, seen-as X (recorded role only), rejoin-as X (real+recorded role, fresh router on that peer), crash (a reachable peer recorded healthy starts refusing connections, registries unchanged)} applied to any peer where it changes something"
 	var sp []*histSpace
 	if quick {
 		two := []int{kLP, kQueryShow}
@@ -354,10 +365,12 @@ func histSpaces(quick bool) []*histSpace {
 	two := []int{kLP, kQueryShow}
 	four := []int{kMsgpack, kLP, kQuery, kQueryShow}
 	lite := histPeerSet([]byte{'h', 'u'}, false)
-	sp = append(sp, &histSpace{Name: "H2-N2", N: 2, Len: 2, Recv: recv, Peers: full, Kinds: four, Ops: allOps,
-		Desc: "2 nodes, 2 requests: " + recvD + " x " + peerD + " x request kinds {write-msgpack, write-lp, query, query-show}^2 x " + transD})
-	sp = append(sp, &histSpace{Name: "H2-N3", N: 3, Len: 2, Recv: recv, Peers: full, Kinds: four, Ops: allOps,
-		Desc: "3 nodes, 2 requests: " + recvD + " x every multiset of 2 x " + peerD + " x request kinds {write-msgpack, write-lp, query, query-show}^2 x " + transD})
+	fullX := histPeerSet([]byte{'h', 'u', 'f', 'x'}, true)
+	const peerDX = "initial peer {4 roles recorded correctly (writer: primary/standby/none) x healthy/unhealthy/failed/crashed-undetected, or running but not registered (4 roles)}"
+	sp = append(sp, &histSpace{Name: "H2-N2", N: 2, Len: 2, Recv: recv, Peers: fullX, Kinds: four, Ops: allOps,
+		Desc: "2 nodes, 2 requests: " + recvD + " x " + peerDX + " x request kinds {write-msgpack, write-lp, query, query-show}^2 x " + transD})
+	sp = append(sp, &histSpace{Name: "H2-N3", N: 3, Len: 2, Recv: recv, Peers: fullX, Kinds: four, Ops: allOps,
+		Desc: "3 nodes, 2 requests: " + recvD + " x every multiset of 2 x " + peerDX + " x request kinds {write-msgpack, write-lp, query, query-show}^2 x " + transD})
 	sp = append(sp, &histSpace{Name: "H3-N2", N: 2, Len: 3, Recv: recv, Peers: full, Kinds: two, Ops: allOps,
 		Desc: "2 nodes, 3 requests: " + recvD + " x " + peerD + " x request kinds {write-lp, query-show}^3 x " + transD})
 	sp = append(sp, &histSpace{Name: "H3-N3", N: 3, Len: 3, Recv: recv, Peers: lite, Kinds: two, Ops: allOps,
